@@ -324,6 +324,17 @@ def block_diagonalize(
                 "If the Hamiltonian has multiple blocks, `fully_diagonalize` may not be an ndarray."
             )
 
+    # Negative block indices count from the end.
+    if isinstance(fully_diagonalize, dict):
+        fully_diagonalize = {
+            (key + H.shape[0] if -H.shape[0] <= key < 0 else key): value
+            for key, value in fully_diagonalize.items()
+        }
+    else:
+        fully_diagonalize = tuple(
+            i + H.shape[0] if -H.shape[0] <= i < 0 else i for i in fully_diagonalize
+        )
+
     # Convert scalar expressions in fully_diagonalize to sympy matrices. For that it is
     # sufficient to test for sympy.Expr because sympy.MatrixBase is not a subclass of
     # sympy.Expr.
